@@ -543,22 +543,37 @@ def run(ch, idx, tier):
 
     def interpolate_op(k):
         nonlocal compared
-        outputs = [all_named[ch.choose("interp.out", len(all_named))]]
-        history.append({"op": "PlotData.interpolate", "outputs": outputs})
+        n_out = 1 + ch.choose("interp.n_out", 3)
+        outputs = []
+        for i in range(n_out):
+            o = all_named[ch.choose(f"interp.out[{i}]", len(all_named))]
+            if o not in outputs:
+                outputs.append(o)
+        pp = pops[: 1 + ch.choose("interp.n_pops", min(2, len(pops)))]
+        history.append({"op": "PlotData.interpolate", "outputs": outputs, "pops": pp})
+        new_t = np.array([float(res.t[0]) + 0.1, float(res.t[2]), float(res.t[-1]) - 0.05])
         try:
-            d = at.PlotData(res, outputs=outputs, pops=pops[:1])
-            base = np.array(d.series[0].vals)
-            tv = np.array(d.series[0].tvec)
-            new_t = np.array([float(res.t[0]) + 0.1, float(res.t[2]), float(res.t[-1]) - 0.05])
+            d = at.PlotData(res, outputs=outputs, pops=pp)
+            base = {(s_.pop, s_.output): (np.array(s_.tvec), np.array(s_.vals)) for s_ in d.series}
             d.interpolate(new_t)
         except Exception:
             bump("query_refused")
             return
-        compared += 1
-        bump("evaluations")
-        exp = np.interp(new_t, tv, base)
-        if not _close(d.series[0].vals, exp, rtol=1e-12, atol=1e-12):
-            violate("interpolation_wrong", "PlotData.interpolate", {"outputs": outputs})
+        for s_ in d.series:
+            # the value reported for one series on the new time points is what the same series asked for alone reports
+            try:
+                alone = at.PlotData(pristine(), outputs=[s_.output], pops=[s_.pop])
+                alone.interpolate(new_t)
+            except Exception:
+                bump("isolated_query_refused")
+                continue
+            compared += 1
+            bump("evaluations")
+            if not _close(s_.vals, alone.series[0].vals, rtol=1e-12, atol=1e-12):
+                violate("answer_depends_on_other_requests", "PlotData.interpolate", {"series": [s_.pop, s_.output], "shared": np.asarray(s_.vals)[:4].tolist(), "isolated": np.asarray(alone.series[0].vals)[:4].tolist(), "call": history[-1]})
+            tv, bv = base[(s_.pop, s_.output)]
+            if not _close(s_.vals, np.interp(new_t, tv, bv), rtol=1e-12, atol=1e-12):
+                bump("observed_beyond_property:interpolation_not_linear")  # the interpolation rule itself is not part of C20's statement
 
     nops = 1 + ch.choose("history_length", 6)
     try:
